@@ -874,6 +874,8 @@ class Gen:
     def generate(self) -> dict[str, Any]:
         fams = sorted(self.weights)
         w = [self.weights[f] for f in fams]
+        if self.opts.get("loopy_boost") and "loopy" in fams:
+            w[fams.index("loopy")] = float(self.opts["loopy_boost"])
         # a couple of seed inputs
         for _ in range(self.rng.randrange(1, 3)):
             self.new_input(self.rand_shape(), self.rand_dtype())
